@@ -26,7 +26,27 @@ def main():
     except MachineryError as e:
         print("MACHINERY-FAILURE:", e)
         return 2
-    except Exception:
+    except (ImportError, SyntaxError):
+        traceback.print_exc()
+        print("MACHINERY-FAILURE: the library under check cannot be imported")
+        return 2
+    except Exception as ex:
+        # An exception raised INSIDE the library while the driver performs a call that the property quantifies over (every
+        # such call succeeds on a tree where the property holds) is a rejection of that call, not a failure of the machinery.
+        tb = traceback.extract_tb(ex.__traceback__)
+        lib_root = os.path.join(os.path.realpath(os.environ.get("DARSIA_REPO", "/repo")), "src", "darsia")
+        lib_frames = [f for f in tb if os.path.realpath(f.filename).startswith(lib_root)]
+        harness_frames = [f for f in tb if "/checks/" in f.filename]
+        if lib_frames and harness_frames:
+            traceback.print_exc()
+            inner, outer = lib_frames[-1], harness_frames[-1]
+            where = os.path.relpath(os.path.realpath(inner.filename), lib_root)
+            ck.violation(f"{a.pid}:LibraryCallTotal:{type(ex).__name__}:{where}:{inner.name}",
+                         f"{type(ex).__name__} raised in {where}:{inner.name} (line {inner.lineno}) during the driver's call at {os.path.basename(outer.filename)}:{outer.lineno}",
+                         {"exception": repr(ex)[:300], "library_frame": f"{where}:{inner.lineno} {inner.name}", "driver_frame": f"{os.path.basename(outer.filename)}:{outer.lineno} {outer.line}",
+                          "note": "the driver stopped at this call; later scenarios were not run"})
+            ck.cov["rule"] = ck.cov.get("rule") or "run aborted by an exception inside the library"
+            return ck.finish()
         traceback.print_exc()
         print("MACHINERY-FAILURE: unexpected exception")
         return 2
